@@ -27,6 +27,8 @@ def spell_int(v, k):
 
 def spell_reg_text(n, k):
     k %= 5
+    if not 0 <= n < 32:
+        return [str(n), hex(n), 'x%d' % n, bin(n), str(n)][k]          # no register: a number (or xN) that names none
     if k == 0:
         return 'x%d' % n
     if k == 1:
@@ -107,7 +109,8 @@ def edgey(rnd, lo, hi, step=1):
 
 
 def gen_ops32(name, rnd):
-    R = lambda: ('r', rnd.randrange(32))
+    # (now and then a register written as a number that is no register: refused, never folded into the next field)
+    R = lambda: ('r', rnd.randrange(32) if rnd.random() < 0.97 else rnd.choice([32, 33, 63, 64, 255, 256, 1023]))
     if name in encsweep.R_NAMES:
         return [R(), R(), R()]
     if name in encsweep.I_NAMES:
@@ -206,6 +209,14 @@ def run(prop, tier, rep):
         seen.add(line)
         st, b = assemble_line(asm, line)
         iops = encsweep.intent_ops(ops)
+        if iops is None:
+            # some operand names nothing at all (a register number that is no register): there is no instruction to decode to
+            rep.evaluations += 1
+            rep.count('text_operand_denotes_nothing_' + st.split()[0])
+            if st == 'ok':
+                rep.violation('line {!r} has an operand that names no register but assembled to {}'.format(line, b.hex()),
+                              dict(case=dict(line=line, name=name, ops=[list(o) for o in ops], status=st, bytes=b.hex()), text_line=line))
+            continue
         req.append('legal%d %s %s' % (width, name, ' '.join(iops)))
         if st == 'ok':
             if len(b) != width // 8:
@@ -246,7 +257,7 @@ def run(prop, tier, rep):
         n += run_nonint(asm, rep)
     if prop == 'C02':
         n += reverse_halfwords(asm, rep)
-    if prop in ('C01', 'C02'):
+    if prop in ('C01', 'C02', 'C06'):
         n += run_named_base(asm, rep, prop)
     return n
 
@@ -256,17 +267,18 @@ def run_named_base(asm, rep, prop):
     For an instruction with an explicit base register the line must mean `mnemonic data, base, imm`; for an sp-relative
     one it can only be accepted with sp as the base; an instruction without any base register has no halfword / word
     that holds the named register, so accepting the line would emit an access the source did not write."""
-    if prop == 'C02':
+    tmpl, imms = [], []
+    if prop in ('C02', 'C06'):
         tmpl = [('c.lwsp', 'x1', 2, 'c.lwsp x1, {imm}'), ('c.lwsp', 'a5', 2, 'c.lwsp a5, {imm}'), ('c.swsp', 'x5', 2, 'c.swsp x5, {imm}'),
                 ('c.swsp', 's1', 2, 'c.swsp s1, {imm}'), ('c.lw', 'x9', None, 'c.lw x9, {base}, {imm}'), ('c.sw', 'x10', None, 'c.sw {base}, x10, {imm}'),
                 ('c.li', 'x9', -1, None), ('c.lui', 'x9', -1, None), ('c.addi', 'x9', -1, None), ('c.addi4spn', 'x9', 2, 'c.addi4spn x9, {imm}'),
                 ('c.slli', 'x9', -1, None)]
         imms = [0, 4, 8, 16, 64, 124]
-    else:
-        tmpl = [('lw', 'x5', None, 'lw x5, {base}, {imm}'), ('sw', 'x5', None, 'sw {base}, x5, {imm}'), ('jalr', 'x1', None, 'jalr x1, {base}, {imm}'),
+    if prop in ('C01', 'C06'):
+        tmpl += [('lw', 'x5', None, 'lw x5, {base}, {imm}'), ('sw', 'x5', None, 'sw {base}, x5, {imm}'), ('jalr', 'x1', None, 'jalr x1, {base}, {imm}'),
                 ('lbu', 'x7', None, 'lbu x7, {base}, {imm}'), ('lui', 'x5', -1, None), ('auipc', 'x5', -1, None), ('jal', 'x1', -1, None),
                 ('addi', 'x5', None, 'addi x5, {base}, {imm}')]
-        imms = [0, 4, 8, -4, 2044]
+        imms = sorted(set(imms + [0, 4, 8, -4, 2044]))
     bases = [('sp', 2), ('x2', 2), ('x9', 9), ('a0', 10), ('x8', 8), ('s1', 9), ('x15', 15), ('x0', 0), ('ra', 1), ('t6', 31)]
     n = 0
     warnings.simplefilter('ignore', SyntaxWarning)      # eval('4 ( x9 )') inside the assembler warns before it fails
@@ -293,7 +305,9 @@ def run_named_base(asm, rep, prop):
     return n
 
 
-NONINT = ['7/2', '10/4', '2047.9', '31.75', '9/2', '1e3', '3.0', '0.5', '-1.5', '5/1', '2**0.5', '1/3', '4/2']
+NONINT = ['7/2', '10/4', '2047.9', '31.75', '9/2', '1e3', '3.0', '0.5', '-1.5', '5/1', '2**0.5', '1/3', '4/2',
+          # a register name is not a number either
+          'sp', 'tp', 'x5', 'a0', 'zero', 's0', 'ra + 1']
 
 
 def run_nonint(asm, rep):
